@@ -359,6 +359,69 @@ func c03Scopes(c *Ctx, pp, tag string) {
 				fmt.Sprintf("scope depth relative to entry at the body: %v (must be one definite value ≥ 1; a loop whose depth grows per iteration leaks scopes)", depths))
 		})
 	}
+	// three-clause loop: init, condition and loop clause are evaluated in one and the same scope (the loop's), the
+	// body one level deeper — a body scope opened around the whole loop would make the body's variables visible to
+	// the condition and the loop clause of the next pass (and clearing it would wipe what they rely on)
+	if f := pk.Func("RunForStmt"); f != nil {
+		before, dec := scopeDepth(f)
+		evals := evalFnsOf(t, pp)
+		runStmts := pk.Func("RunStmts")
+		depthsAt := func(in ssa.Instruction) map[int]bool {
+			ds := map[int]bool{}
+			for st := 0; st < 15; st++ {
+				if before[in]&(1<<uint(st)) != 0 {
+					d, _ := dec(st)
+					ds[d] = true
+				}
+			}
+			return ds
+		}
+		clause := map[string]map[int]bool{}
+		body := map[int]bool{}
+		allInstrs(f, func(in ssa.Instruction) {
+			call, ok := in.(*ssa.Call)
+			if !ok || call.Call.StaticCallee() == nil || len(call.Call.Args) < 2 {
+				return
+			}
+			if evals[call.Call.StaticCallee()] {
+				for _, cl := range []string{"Init", "Cond", "Loop"} {
+					if strings.HasSuffix(path(call.Call.Args[1]), "."+cl) {
+						if clause[cl] == nil {
+							clause[cl] = map[int]bool{}
+						}
+						for d := range depthsAt(call) {
+							clause[cl][d] = true
+						}
+					}
+				}
+			}
+			if call.Call.StaticCallee() == runStmts && strings.Contains(path(call.Call.Args[1]), ".Body") {
+				for d := range depthsAt(call) {
+					body[d] = true
+				}
+			}
+		})
+		if len(clause) >= 2 {
+			all := map[int]bool{}
+			for _, ds := range clause {
+				for d := range ds {
+					all[d] = true
+				}
+			}
+			okC := len(all) == 1
+			d0 := 0
+			for d := range all {
+				d0 = d
+			}
+			for d := range body {
+				if d <= d0 {
+					okC = false
+				}
+			}
+			r.Ob("SCOPE", tag+".RunForStmt evaluates its clauses in the loop's scope and the body one level deeper", t.Pos(f.Pos()), okC,
+				fmt.Sprintf("scope depth relative to entry: init %v, condition %v, loop clause %v, body %v — the clauses must share one depth and the body lie deeper", keysInt(clause["Init"]), keysInt(clause["Cond"]), keysInt(clause["Loop"]), keysInt(body)))
+		}
+	}
 	// StackExitCur re-points to the parent
 	for _, tn := range []string{"Task"} {
 		f := t.Method(pp, tn, "StackExitCur")
@@ -860,6 +923,57 @@ func c03Flags(c *Ctx, pp, tag string) {
 			}
 		})
 		ok := loopEval != nil
+		if loopEval == nil {
+			// … or a helper that ends the iteration evaluates it: the helper is called on every cycle (the test of
+			// its answer dominates every back edge) and each of its `go on` answers comes after the nil test of
+			// stmt.Loop that guards the evaluation
+			for _, l := range naturalLoops(f) {
+				for _, b := range f.Blocks {
+					if !l.Blocks[b] {
+						continue
+					}
+					for _, in := range b.Instrs {
+						call, isCall := in.(*ssa.Call)
+						if !isCall {
+							continue
+						}
+						h := call.Call.StaticCallee()
+						bi := boolResultIdx(h)
+						if bi < 0 || h.Pkg != f.Pkg || len(h.Blocks) == 0 {
+							continue
+						}
+						var hev *ssa.Call
+						allInstrs(h, func(in2 ssa.Instruction) {
+							if c2, isC := in2.(*ssa.Call); isC && evals[c2.Call.StaticCallee()] && len(c2.Call.Args) > 1 && strings.HasSuffix(path(c2.Call.Args[1]), ".Loop") {
+								hev = c2
+							}
+						})
+						if hev == nil {
+							continue
+						}
+						ifBlk, contVal, _, found := loopTestOf(l, call, bi)
+						if !found {
+							continue
+						}
+						guard := hev.Block()
+						for _, ec := range controlling(hev.Block()) {
+							if strings.HasSuffix(condStr(ec.Cond), ".Loop != nil") || strings.HasSuffix(condStr(ec.Cond), ".Loop == nil") {
+								guard = ec.If
+							}
+						}
+						okH := helperAnswers(h, bi, contVal, func(rb *ssa.BasicBlock) bool { return guard == rb || guard.Dominates(rb) }, nil)
+						for _, la := range l.Latch {
+							if !ifBlk.Dominates(la) {
+								okH = false
+							}
+						}
+						if okH {
+							ok = true
+						}
+					}
+				}
+			}
+		}
 		if loopEval != nil {
 			// find the nil test of stmt.Loop that guards it; every latch must be dominated by that test block
 			var guard *ssa.BasicBlock
@@ -944,7 +1058,7 @@ func c03Iter(c *Ctx, pp, tag string) {
 			fmt.Sprintf("range loop=%v, body executions per iteration=%d, nested in another loop=%v", isRange, bodies, nested))
 		// path rule: no way from one body execution to the next without passing stackCur.Clear()
 		skip := false
-		if body != nil {
+		if body != nil && !clearsAfterBody(body.Call.StaticCallee(), runStmts) {
 			skip = reachAvoid(body, body, func(in ssa.Instruction) bool {
 				call, ok := in.(*ssa.Call)
 				return ok && alwaysClears(call.Call.StaticCallee(), 0)
@@ -1458,8 +1572,12 @@ func alwaysClears(g *ssa.Function, depth int) bool {
 		return false
 	}
 	for _, b := range g.Blocks {
-		if _, isRet := b.Instrs[len(b.Instrs)-1].(*ssa.Return); !isRet {
+		ret, isRet := b.Instrs[len(b.Instrs)-1].(*ssa.Return)
+		if !isRet {
 			continue
+		}
+		if len(ret.Results) > 0 && retError(ret) == "nonnil" {
+			continue // the loop is left with an error: nothing runs in the scope any more
 		}
 		ok := false
 		for _, s := range sites {
@@ -1468,6 +1586,35 @@ func alwaysClears(g *ssa.Function, depth int) bool {
 			}
 		}
 		if !ok {
+			return false
+		}
+	}
+	return true
+}
+
+// clearsAfterBody: g runs the body once and then always clears the scope (on every return that is not an error):
+// a call of g is one body execution followed by the clearing, so two consecutive calls have a Clear between their
+// bodies.
+func clearsAfterBody(g, runStmts *ssa.Function) bool {
+	if g == nil || g == runStmts || !runsBodyOnce(g, runStmts, 0) || !alwaysClears(g, 0) {
+		return false
+	}
+	var body *ssa.Call
+	var clears []*ssa.Call
+	allInstrs(g, func(in ssa.Instruction) {
+		if c2, ok := in.(*ssa.Call); ok && c2.Call.StaticCallee() != g {
+			if runsBodyOnce(c2.Call.StaticCallee(), runStmts, 1) {
+				body = c2
+			} else if alwaysClears(c2.Call.StaticCallee(), 1) {
+				clears = append(clears, c2)
+			}
+		}
+	})
+	if body == nil || len(clears) == 0 {
+		return false
+	}
+	for _, cl := range clears {
+		if reachableFrom(cl, body) {
 			return false
 		}
 	}
@@ -1688,4 +1835,13 @@ func blockOfStmts(call *ssa.Call, runStmts *ssa.Function) ssa.Value {
 		return nil
 	}
 	return fa.X
+}
+
+func keysInt(m map[int]bool) []int {
+	var out []int
+	for k := range m {
+		out = append(out, k)
+	}
+	sort.Ints(out)
+	return out
 }
